@@ -427,6 +427,7 @@ func c19Environ(c *core.Ctx) {
 
 func c19Immutability(c *core.Ctx) {
 	c19Environ(c)
+	c19Configs(c)
 	dir := c01Dir(c)
 	f := func(pc progenum.Case) {
 		if !c.Mine() || c.Expired() {
@@ -453,6 +454,111 @@ func c19Immutability(c *core.Ctx) {
 	progenum.EnumControl(c.Thorough(), f)
 	if c.Thorough() {
 		progenum.EnumLvalue(true, f)
+	}
+}
+
+// ---------------------------------------------------------------- (2b) one Program under different configurations
+
+// c19CfgPrograms use what depends on the configuration of an execution (field
+// names of a CSV header, input / output modes, character mode, separators).
+var c19CfgPrograms = []struct{ name, src string }{
+	{"field-by-name", `{ print @"b" }`},
+	{"field-by-name-two", `{ print @"b" "-" @"c"; n = "b"; print @n }`},
+	{"field-by-name-func", `function g() { return @"c" } { print g(), @"b" } END { print @"b" }`},
+	{"field-by-name-getline", `BEGIN { getline; print @"b"; getline; print @"b" @"c" }`},
+	{"fields-array", `{ for (i = 1; i in FIELDS; i++) s = s FIELDS[i] ":"; print s, @"b" }`},
+	{"modes-in-begin", `BEGIN { INPUTMODE = "csv header"; OUTPUTMODE = "tsv" } { print @"b", "x y" }`},
+	{"rebuild-print", `{ $1 = $1; print; print $1, "x,y\tz" }`},
+	{"chars", `{ print length($0), substr($0, 2, 2), index($0, "\303\251"), toupper($1); printf "%c%.2s|\n", $1, $1 }`},
+	{"regex-fs-rs", `BEGIN { FS = "[,;]" } { print NF ":" $2; n += gsub(/[a-c]/, "&&") } END { print n }`},
+	{"split-seps", `{ n = split($0, p); m = split($0, q, ","); print n, m, p[1], q[1] }`},
+}
+
+type c19ExecCfg struct {
+	name  string
+	stdin string
+	mk    func() *interp.Config
+}
+
+func c19ExecCfgs() []c19ExecCfg {
+	return []c19ExecCfg{
+		{"csv-header-b-first", "b,c\n1,2\n3,4\n", func() *interp.Config {
+			return &interp.Config{InputMode: interp.CSVMode, CSVInput: interp.CSVInputConfig{Header: true}}
+		}},
+		{"csv-header-b-second", "c,b\n5,6\n7,8\n", func() *interp.Config {
+			return &interp.Config{InputMode: interp.CSVMode, CSVInput: interp.CSVInputConfig{Header: true}}
+		}},
+		{"csv-no-header", "7,8\n9,b\n", func() *interp.Config { return &interp.Config{InputMode: interp.CSVMode} }},
+		{"tsv-header-csv-out", "a\tb\tc\n1\t2\t3 4\n", func() *interp.Config {
+			return &interp.Config{InputMode: interp.TSVMode, CSVInput: interp.CSVInputConfig{Header: true}, OutputMode: interp.CSVMode}
+		}},
+		{"chars", "h\303\251 llo,b;c\n\303\251\n", func() *interp.Config { return &interp.Config{Chars: true} }},
+		{"default", "h\303\251 llo,b;c\nb c\n", func() *interp.Config { return &interp.Config{} }},
+		{"vars", "x-b-c\n", func() *interp.Config { return &interp.Config{Vars: []string{"FS", "-", "OFS", "+", "CONVFMT", "%.2g"}} }},
+	}
+}
+
+func c19RunCfg(prog *parser.Program, ec c19ExecCfg) string {
+	cfg := ec.mk()
+	cfg.Stdin = strings.NewReader(ec.stdin)
+	cfg.Environ = []string{}
+	res := awk.Exec(prog, cfg)
+	if res.Panic != "" {
+		return "panic: " + firstLine(res.Panic)
+	}
+	return fmt.Sprintf("%q status=%d err=%q", res.Out, res.Status, res.ErrString())
+}
+
+// c19ConfigEval: one Program executed under every configuration in turn (twice,
+// the second round in reverse order); each result must be that of a single
+// execution of a freshly parsed Program under the same configuration, and the
+// Program must not change.
+func c19ConfigEval(c *core.Ctx, cs c19Case) {
+	prog, err, pn := awk.Parse(cs.Src, nil)
+	if err != nil || pn != "" {
+		panic("C19 harness: configuration program does not parse: " + cs.Src)
+	}
+	cfgs := c19ExecCfgs()
+	want := map[string]string{}
+	for _, ec := range cfgs {
+		fresh, _, _ := awk.Parse(cs.Src, nil)
+		want[ec.name] = c19RunCfg(fresh, ec)
+		c.Eval(1)
+	}
+	before := c19Fingerprint(prog) + c19Disasm(prog) + "deep:\n" + vexp.DeepDump(prog)
+	order := append([]c19ExecCfg{}, cfgs...)
+	for i := len(cfgs) - 1; i >= 0; i-- {
+		order = append(order, cfgs[i])
+	}
+	prev := "(first)"
+	for _, ec := range order {
+		got := c19RunCfg(prog, ec)
+		c.Eval(1)
+		c.Add("transitions", 1)
+		c.Outcome(cs.Name + " " + ec.name + " " + got)
+		if got != want[ec.name] {
+			c.Fail("immutable:execution-depends-on-earlier-executions", cs, fmt.Sprintf("configuration %s after %s: got %s; a single execution gives %s", ec.name, prev, trunc(got, 200), trunc(want[ec.name], 200)))
+			break
+		}
+		prev = ec.name
+	}
+	c.Add("states", 1)
+	after := c19Fingerprint(prog) + c19Disasm(prog) + "deep:\n" + vexp.DeepDump(prog)
+	if before != after {
+		c.Fail("immutable:program-modified-by-execution", cs, c19FirstDiff(before, after))
+	}
+}
+
+func c19Configs(c *core.Ctx) {
+	for _, sp := range c19CfgPrograms {
+		if c.Mine() {
+			c19ConfigEval(c, c19Case{Part: "configs", Name: sp.name, Src: sp.src})
+		}
+	}
+	for _, sp := range c19SharePrograms {
+		if sp.name != "native" && c.Mine() {
+			c19ConfigEval(c, c19Case{Part: "configs", Name: sp.name, Src: sp.src})
+		}
 	}
 }
 
@@ -658,6 +764,8 @@ func c19Replay(c *core.Ctx, raw json.RawMessage) {
 		c19ImmutableEval(c, c01Dir(c), prog, cs)
 	case "environ":
 		c19Environ(c)
+	case "configs":
+		c19ConfigEval(c, cs)
 	case "race":
 		c.Shard = 0
 		c19RacePass(c)
@@ -681,7 +789,7 @@ func init() {
 		ID:    "C19",
 		Level: "model_checking",
 		Rule: "(1) map orders: for programs with 2-3 independent type errors (all such subsets of 9 error items), call-graph shapes, native+AWK function mixes and the repository's own sources, every map-range site executed by the resolver/compiler during ParseProgram is a choice point over a permutation menu (all n! for n<=3, else identity/reverse/rotations/adjacent swaps); all parses with <=1 (thorough <=2) non-sorted site executions; verdict, message+position, compiled code, constants, function table, printed source and disassembly must equal the sorted-order parse; " +
-			"(2) immutability: reflective deep dump of everything reachable from the *parser.Program (exported and unexported fields, spare slice capacity, compiled regexes) before = after two rounds of executions (including failing ones; second round with the inputs in the other order), and the deep dump of every package-level variable of the goawk packages after round 1 = after round 2, for the sharing programs, 3 programs that start child processes through the default shell, and the C01 misc/builtins/calls/control space; the second round's results equal the first; " +
+			"(2) immutability: reflective deep dump of everything reachable from the *parser.Program (exported and unexported fields, spare slice capacity, compiled regexes) before = after two rounds of executions (including failing ones; second round with the inputs in the other order), and the deep dump of every package-level variable of the goawk packages after round 1 = after round 2, for the sharing programs, 3 programs that start child processes through the default shell, and the C01 misc/builtins/calls/control space; the second round's results equal the first; (2b) 10 configuration-sensitive programs (@-name field access, FIELDS, modes set in BEGIN, $0 rebuild, character functions, regex FS) and the sharing programs each executed as ONE Program under 7 configurations in turn and back (CSV header with a column at different positions, CSV without header, TSV header with CSV output, character mode, default, Vars): every result equals a single execution of a freshly parsed Program under that configuration, deep dump unchanged; " +
 			"(3) sharing: 2 and 3 interpreters over one Program as cooperative threads yielding at every VM instruction, all interleavings with <=2 preemptions (3 interpreters: 1 in quick), each interpreter's result must equal its single run; state = one program, transition = one parse order / execution / schedule",
 		Assumptions: []string{
 			"Go map iteration order is owned through the overlay's rewrite of every map range to vhook.Keys; orders explored are a menu per site execution, not all n! for n>3",
